@@ -55,8 +55,9 @@ func VP_C11_NCBI() {
 	vpReach("end")
 }
 
-var vpScores = []string{"1", "-2", "0.5", "1e3", "-0"}
-var vpScoreVals = []float64{1, -2, 0.5, 1e3, 0}
+// (0.1, -1.7 and 16777217 are not representable in float32; 1e300 is beyond its range)
+var vpScores = []string{"1", "-2", "0.5", "0.1", "1e3", "-1.7", "-0", "16777217", "1e300"}
+var vpScoreVals = []float64{1, -2, 0.5, 0.1, 1e3, -1.7, 0, 16777217, 1e300}
 
 func vpLabel(name string) byte {
 	c := vpByte(name)
@@ -152,7 +153,7 @@ func VP_C20_ReadNCBI() {
 		}
 		for j := 0; j < n; j++ {
 			data = append(data, sep("s"+vpDigit(i)+vpDigit(j))...)
-			v := (i*cols + j) % len(vpScores)
+			v := (i*cols + j + layout) % len(vpScores)
 			if corrupt == 3 && i == rows-1 && j == n-1 {
 				data = append(data, "1x"...)
 			} else {
